@@ -17,9 +17,9 @@ PROPERTY = "C16"
 NAN = float("nan")
 
 META = {
-    "rule": "one case = (encoding, container, shape, values[, classes mode, second array]); trivial = the (sentinel, dtype) "
-    "combination is rejected by check_missing_label (TypeError) or a 2-D array with a zero-length axis is rejected with the "
-    "documented ValueError; distinct = distinct tuple",
+    "rule": "one case = (encoding, container, shape, values[, classes mode, second array]); trivial = the encoder is fitted on an empty "
+    "list (float64) with a string sentinel (documented TypeError) or a 2-D array with a zero-length axis is rejected with the "
+    "documented ValueError; every other TypeError is a violation; distinct = distinct tuple",
     "assumptions": ["arrays up to the stated length / shape; alphabets of 3 classes + sentinel", "sklearn LabelEncoder is trusted for sorting"],
 }
 
@@ -129,8 +129,21 @@ def check_predicates(acc, enc, cont, shape, vals):
             li = labeled_indices(y, missing_label=ml)
         acc.transitions += 4
     except TypeError as e:
-        acc.case(key, trivial=True)
-        acc.reject("TypeError: sentinel incompatible with dtype (check_missing_label)")
+        if isinstance(ml, np.generic):
+            # a numpy scalar is the same sentinel as its Python value: it may only be rejected if that one is rejected too
+            try:
+                with warnings.catch_warnings():
+                    warnings.simplefilter("ignore")
+                    is_unlabeled(y, missing_label=ml.item())
+                acc.case(key)
+                acc.violation("is_unlabeled", "numpy_scalar_sentinel_rejected", "missing_label=%r is rejected (%s) although %r is accepted" % (
+                    ml, str(e)[:120], ml.item()), wit, replay=rep, size=size)
+                return
+            except Exception:
+                pass  # the Python value is rejected as well
+        # every (sentinel, dtype) pair of the enumeration is a supported one: the predicates have no reason to reject it
+        acc.case(key)
+        acc.violation("is_unlabeled", "unexpected_rejection:TypeError", str(e)[:200], wit, replay=rep, size=size)
         return
     except ValueError as e:
         if len(shape) == 2 and shape[1] == 0 and "must be of shape" in str(e):
@@ -214,8 +227,24 @@ def check_encoder(acc, enc, cont, shape, vals, cmode, shape2, vals2):
             ft = ExtLabelEncoder(classes=classes, missing_label=ml).fit_transform(y)
         acc.transitions += 6
     except TypeError as e:
-        acc.case(key, trivial=True)
-        acc.reject("TypeError: sentinel incompatible with dtype (check_missing_label)")
+        if isinstance(ml, np.generic):
+            try:
+                with warnings.catch_warnings():
+                    warnings.simplefilter("ignore")
+                    ExtLabelEncoder(classes=classes, missing_label=ml.item()).fit(y)
+                acc.case(key)
+                acc.violation("ExtLabelEncoder", "numpy_scalar_sentinel_rejected", "missing_label=%r is rejected (%s) although %r is accepted" % (
+                    ml, str(e)[:120], ml.item()), wit, replay=rep, size=size)
+                return
+            except Exception:
+                pass  # the Python value is rejected as well
+        if cont == "list" and tuple(shape) == (0,) and isinstance(ml, str):
+            # an empty list carries no dtype (numpy makes it float64), which is incompatible with a string sentinel: documented TypeError
+            acc.case(key, trivial=True)
+            acc.reject("TypeError: string sentinel with an empty list (float64) as fit data (check_missing_label)")
+            return
+        acc.case(key)
+        acc.violation("ExtLabelEncoder", "unexpected_rejection:TypeError", str(e)[:200], wit, replay=rep, size=size)
         return
     except Exception as e:
         if (len(shape) == 2 and shape[1] == 0) or (len(shape2) == 2 and shape2[1] == 0):
